@@ -141,3 +141,11 @@ Example base_after_dependants :
   map (fun e => (esrc e, etgt e)) (edges (fst (run_with rev_oracle u [DefineType 1%N 1; DefineType 2%N 2; DefineType 3%N 3; DefineType 0%N 0])))
   = [(3, 2); (3, 1); (3, 0)].
 Proof. vm_compute. reflexivity. Qed.
+
+(** [resolve_imports] (fix 591363d): the `first` node reported by an ImportTypeMergeConflict for an explicit import is
+    the minimum node index among the same-track entries of two HashMaps; it does not depend on their iteration order. *)
+Theorem conflict_first_node_order_indep : forall compat v1 v1' v2 v2' dflt,
+  Permutation v1 v1' -> Permutation v2 v2' ->
+  conflict_first compat v1 v2 dflt = conflict_first compat v1' v2' dflt.
+Proof. exact conflict_first_order_indep. Qed.
+Print Assumptions conflict_first_node_order_indep.
